@@ -711,9 +711,16 @@ func reachableAll(labels []string, byLabel map[string][]*symex.VC, opts symex.Di
 	var mu sync.Mutex
 	sem := make(chan struct{}, 16)
 	o := opts
-	if o.FPTimeout > 90*time.Second {
-		o.FPTimeout = 90 * time.Second
+	// witnesses are sat queries: 90 s in the quick tier, 300 s in the thorough tier (symbolic
+	// configurations make even the witness a several-minute floating-point query)
+	wcap := 90 * time.Second
+	if o.CrossCheck {
+		wcap = 300 * time.Second
 	}
+	if o.FPTimeout > wcap {
+		o.FPTimeout = wcap
+	}
+	o.CrossCheck = false
 	try := func(label string, vcs []*symex.VC, exact bool) {
 		var wg sync.WaitGroup
 		for _, vc := range vcs {
@@ -753,7 +760,29 @@ func reachableAll(labels []string, byLabel map[string][]*symex.VC, opts symex.Di
 				first = first[:6]
 			}
 			try(label, first, false)
-			for start := 0; start < len(vcs) && start < 240; start += 24 {
+			// order of attempts: the 24 smallest, the 24 largest, 24 evenly spread, then the rest from
+			// the small end (the smallest path conditions are often infeasible early exits)
+			var order []*symex.VC
+			seen := map[int]bool{}
+			add := func(i int) {
+				if i >= 0 && i < len(vcs) && !seen[i] {
+					seen[i] = true
+					order = append(order, vcs[i])
+				}
+			}
+			for i := 0; i < 24; i++ {
+				add(i)
+			}
+			for i := 0; i < 24; i++ {
+				add(len(vcs) - 1 - i)
+			}
+			for i := 0; i < 24; i++ {
+				add(i * len(vcs) / 24)
+			}
+			for i := 0; i < len(vcs); i++ {
+				add(i)
+			}
+			for start := 0; start < len(order) && start < 240; start += 24 {
 				mu.Lock()
 				done := out[label]
 				mu.Unlock()
@@ -761,10 +790,10 @@ func reachableAll(labels []string, byLabel map[string][]*symex.VC, opts symex.Di
 					return
 				}
 				end := start + 24
-				if end > len(vcs) {
-					end = len(vcs)
+				if end > len(order) {
+					end = len(order)
 				}
-				try(label, vcs[start:end], true)
+				try(label, order[start:end], true)
 			}
 		}(label)
 	}
